@@ -1563,6 +1563,7 @@ impl<B: serde::Serialize> Json<B> {
         ensures res matches Ok(BodyKind::Chunked), final(self).0 == old(self).0, // id: streamed_json_is_sent_chunked [C07]
 //@@ end
 }
+//@@ implshape src/request/body.rs impl<B:~Serialize>~Body~for~Json<B> kind,write
 impl<B: serde::Serialize> Body for Json<B> {
     open spec fn octets(&self) -> Seq<u8> { match json_bytes(self.0) { Some(b) => b, None => Seq::empty() } }
     open spec fn kind_spec(&self) -> BodyKind { BodyKind::Chunked }
